@@ -47,9 +47,10 @@ def build_lib(cxx="g++", extra_flags=(), tag="base"):
             os.utime(d)
             return d
         # prune old caches of the same tag
+        # (entries are touched on every use; only ones unused for hours go, so that concurrent runs against other trees keep theirs)
         olds = sorted(glob.glob(os.path.join(BUILD, "lib", tag + "-*")), key=os.path.getmtime)
         for o in olds[:-2]:
-            shutil.rmtree(o, ignore_errors=True)
+            if time.time() - os.path.getmtime(o) > 4 * 3600 or len(olds) > 24: shutil.rmtree(o, ignore_errors=True)
         tmp = d + ".tmp"
         shutil.rmtree(tmp, ignore_errors=True); os.makedirs(tmp)
         _version_hpp(os.path.join(tmp, "version.hpp"))
@@ -89,9 +90,12 @@ def build_harness(src, libdir, cxx="g++", extra_flags=(), out=None):
     with Lock("h-" + name):
         if os.path.exists(exe):
             os.utime(exe); return exe
-        for o in sorted(glob.glob(os.path.join(odir, name + "-*")), key=os.path.getmtime)[:-2]:
-            try: os.remove(o)
-            except OSError: pass
+        cached = sorted(glob.glob(os.path.join(odir, name + "-*")), key=os.path.getmtime)
+        for o in cached[:-2]:
+            # a binary another run may be using right now (other tree, other compiler, other flags) stays: only ones unused for hours go
+            if time.time() - os.path.getmtime(o) > 4 * 3600 or len(cached) > 40:
+                try: os.remove(o)
+                except OSError: pass
         r = sh([cxx] + flags + ["-I", os.path.join(REPO, "include"), "-I", libdir, "-I", hdir, src,
                 os.path.join(libdir, "libphysica.a"), "-lconfig++", "-o", exe + ".tmp"])
         if r.returncode != 0:
